@@ -317,7 +317,11 @@ Definition project_sorted (cf : cfg) (g : graph) (pe : penv) (empty_ok : bool) (
               then dedup_by (fun a b : entry => row_vals_eqb (map snd (snd a)) (map snd (snd b))) es
               else es in
     obind (omap (fun e : entry =>
-                   obind (omap (fun ob : expr * bool => eval_expr cf g pe (fst e) (fst ob)) (p_order p))
+                   obind (omap (fun ob : expr * bool =>
+                                  match eval_expr cf g pe (fst e) (fst ob) with
+                                  | Ok v => Ok v
+                                  | err => if cf_orderby_errors cf then err else Ok VNull
+                                  end) (p_order p))
                          (fun k => Ok (k, snd e))) es) (fun ks =>
       Ok (sort_by (key_le (map snd (p_order p))) ks))).
 
